@@ -111,7 +111,6 @@ class QCircuitEnhanced(QCircuit):
             if (
                 issubclass(g.__class__, gates.NopGate)
                 or qbs[-1] in keep
-                or qbs[-1] in self.free_ancilla_lst
             ):
                 continue
             uncomputed.add(qbs[-1])
